@@ -89,6 +89,9 @@ def gen_case(rng):
               ("STEP", "M", "1.0", "STEP")] + gen_items(rng, "W", 0 if big else rng.randint(0, 5))
     if rng.random() < 0.3:
         s.well.append((rng.choice(["UWI", "API", "uwi"]), "", rng.choice(["100091604920W300", "007", "0012"]), "ID"))
+    if rng.random() < 0.25:
+        # a duplicated special mnemonic (its value/description order differs from the default in 1.2)
+        s.well.append((rng.choice(["NULL", "null", "NULL"]), "", rng.choice(["-9999", "-999.25", "0"]), "second null value"))
     nc = rng.randint(1, 4)
     s.curves = [("DEPT", "M", rng.choice(CURVE_VALS), "1  DEPTH")] + gen_items(rng, "C", nc - 1)
     nc = len(s.curves)
